@@ -52,7 +52,9 @@ type c32Case struct {
 	MaxParallel int        `json:"max_parallel"`
 	Multiplier  float64    `json:"multiplier"` // 0: hedging off
 	MaxHedges   int        `json:"max_hedges"` // 0: unlimited
-	Head        string     `json:"head"`       // ok | noranges | 500 | reset
+	Head        string     `json:"head"`       // ok | noranges | nolength | 500 | reset
+	MaxFetch    string     `json:"max_fetch,omitempty"` // "" = 16 MiB; else the fetch cap relative to the resource's wire size: size-1 | size | size+1 | half
+	Chunked     bool       `json:"chunked,omitempty"`   // whole-resource answers are streamed without a Content-Length
 	Threshold   string     `json:"threshold"`  // low (parallel path) | high (simple GET)
 	Zstd        bool       `json:"zstd"`
 	Seed        uint64     `json:"seed"`
@@ -112,7 +114,17 @@ func genC32(t *rapid.T) c32Case {
 	c.MaxHedges = []int{0, 0, 1, 4}[rapid.IntRange(0, 3).Draw(t, "max_hedges")]
 	c.Head = "ok"
 	if rapid.IntRange(0, 7).Draw(t, "head-odd") == 7 {
-		c.Head = []string{"noranges", "500", "reset"}[rapid.IntRange(0, 2).Draw(t, "head")]
+		c.Head = []string{"noranges", "500", "reset", "nolength"}[rapid.IntRange(0, 3).Draw(t, "head")]
+	}
+	c.Chunked = rapid.IntRange(0, 3).Draw(t, "chunked") == 0
+	if rapid.IntRange(0, 5).Draw(t, "maxfetch?") == 0 {
+		// a fetch cap around the resource's size, mostly on the plain-GET path where the
+		// body's length may be undeclared
+		c.MaxFetch = []string{"size-1", "size", "size+1", "half"}[rapid.IntRange(0, 3).Draw(t, "maxfetch")]
+		if rapid.IntRange(0, 2).Draw(t, "cap-simple") != 0 {
+			c.Head = []string{"noranges", "nolength"}[rapid.IntRange(0, 1).Draw(t, "cap-head")]
+			c.Chunked = rapid.Bool().Draw(t, "cap-chunked")
+		}
 	}
 	c.Threshold = "low"
 	if rapid.IntRange(0, 11).Draw(t, "threshold-high") == 11 {
@@ -316,6 +328,26 @@ func writeFull(w http.ResponseWriter, status int, hdr map[string]string, body []
 	}
 }
 
+// writeStreamed sends body without declaring its length (chunked transfer coding), in a few pieces.
+func writeStreamed(w http.ResponseWriter, status int, hdr map[string]string, body []byte) {
+	for k, v := range hdr {
+		w.Header().Set(k, v)
+	}
+	w.WriteHeader(status)
+	fl, _ := w.(http.Flusher)
+	for len(body) > 0 {
+		n := min(len(body), 1+len(body)/3)
+		w.Write(body[:n])
+		body = body[n:]
+		if fl != nil {
+			fl.Flush()
+		}
+	}
+	if fl != nil {
+		fl.Flush()
+	}
+}
+
 func (o *c32Origin) serve(w http.ResponseWriter, r *http.Request) {
 	o.mu.Lock()
 	st := o.states[r.URL.Path]
@@ -352,6 +384,12 @@ func (o *c32Origin) serve(w http.ResponseWriter, r *http.Request) {
 			writeFull(w, 500, nil, nil)
 		case "reset":
 			hijackClose(w, nil)
+		case "nolength":
+			w.Header().Set("Accept-Ranges", "bytes")
+			for k, v := range encHdr {
+				w.Header().Set(k, v)
+			}
+			w.WriteHeader(200)
 		case "noranges":
 			w.Header().Set("Content-Length", strconv.Itoa(len(st.resource)))
 			for k, v := range encHdr {
@@ -374,7 +412,11 @@ func (o *c32Origin) serve(w http.ResponseWriter, r *http.Request) {
 	var a, b int
 	if n, _ := fmt.Sscanf(rng, "bytes=%d-%d", &a, &b); n != 2 || a < 0 || b < a || a >= len(st.resource) {
 		// plain GET (or a range outside the resource): the whole resource
-		writeFull(w, 200, encHdr, st.resource)
+		if st.c.Chunked {
+			writeStreamed(w, 200, encHdr, st.resource)
+		} else {
+			writeFull(w, 200, encHdr, st.resource)
+		}
 		return
 	}
 	if b >= len(st.resource) {
@@ -531,6 +573,16 @@ func c32Fetch(c c32Case, multiplier float64) c32Result {
 	if c.Threshold == "high" {
 		cfg.ParallelThresholdBytes = int64(c.Size) + 1
 	}
+	switch wire := int64(len(st.resource)); c.MaxFetch {
+	case "size-1":
+		cfg.MaxFetchBytes = max(wire-1, 1)
+	case "size":
+		cfg.MaxFetchBytes = wire
+	case "size+1":
+		cfg.MaxFetchBytes = wire + 1
+	case "half":
+		cfg.MaxFetchBytes = max(wire/2, 1)
+	}
 	type ret struct {
 		data []byte
 		err  error
@@ -656,6 +708,18 @@ func runC32(c c32Case) (out lib.Outcome) {
 	n := (c.Size + c.ChunkSize - 1) / c.ChunkSize
 	parallelPath := c.Head == "ok" && c.Threshold == "low"
 	out.Label("shape:" + c.Shape)
+	if c.MaxFetch != "" {
+		out.Label("max-fetch:" + c.MaxFetch)
+		if !parallelPath {
+			out.Label("simple-get-under-a-drawn-cap")
+			if c.Chunked {
+				out.Label("simple-get-under-a-drawn-cap:undeclared-length")
+			}
+		}
+	}
+	if !parallelPath && c.Chunked {
+		out.Label("simple-get:undeclared-length")
+	}
 	if c.Excluded {
 		out.Label("excluded:hang-class")
 	}
@@ -696,8 +760,8 @@ func runC32(c c32Case) (out lib.Outcome) {
 	want, decodable := c32Expected(c)
 
 	judge := func(res c32Result, what string) (kind string) {
-		shape := fmt.Sprintf("%s: size=%d chunk=%d (%d chunks) parallel=%d multiplier=%g max_hedges=%d head=%s threshold=%s zstd=%v script=%s requests=%v",
-			what, c.Size, c.ChunkSize, n, c.MaxParallel, c.Multiplier, c.MaxHedges, c.Head, c.Threshold, c.Zstd, c32Script(c, n), res.requests)
+		shape := fmt.Sprintf("%s: size=%d chunk=%d (%d chunks) parallel=%d multiplier=%g max_hedges=%d head=%s threshold=%s max_fetch=%q chunked=%v zstd=%v script=%s requests=%v",
+			what, c.Size, c.ChunkSize, n, c.MaxParallel, c.Multiplier, c.MaxHedges, c.Head, c.Threshold, c.MaxFetch, c.Chunked, c.Zstd, c32Script(c, n), res.requests)
 		switch {
 		case res.gaveUp:
 			out.Skipped = true
@@ -742,7 +806,8 @@ func runC32(c c32Case) (out lib.Outcome) {
 	}
 	if firstsOK && faulty > 0 && parallelPath {
 		out.Label("only-hedges-faulty")
-		if k1 == "error" && decodable {
+		// (a cap below the resource's size is a reason of its own to fail)
+		if capAdmits := c.MaxFetch == "" || c.MaxFetch == "size" || c.MaxFetch == "size+1"; k1 == "error" && decodable && capAdmits {
 			out.Violate("C32/failed-hedge-fails-fetch", "every original range request was answered correctly and only hedged duplicates failed, yet the fetch returned an error (%v); size=%d chunk=%d parallel=%d multiplier=%g script=%s requests=%v",
 				res1.err, c.Size, c.ChunkSize, c.MaxParallel, c.Multiplier, c32Script(c, n), res1.requests)
 		}
@@ -786,12 +851,12 @@ func firstDiff(a, b []byte) int {
 var propC32 = lib.Prop[c32Case]{
 	ID:    "C32",
 	Level: "fault_enumeration",
-	Rule: "fault scripts + schedules: resource 1 B-256 KiB (position-dependent bytes, 10% zstd-encoded), 1-14 chunks, MaxParallelRequests 1-32, hedging off / eager / moderate with 1, 4 or unlimited hedges, HEAD ok / without Accept-Ranges / 500 / reset, threshold below or above the size; " +
+	Rule: "fault scripts + schedules: resource 1 B-256 KiB (position-dependent bytes, 10% zstd-encoded), 1-14 chunks, MaxParallelRequests 1-32, hedging off / eager / moderate with 1, 4 or unlimited hedges, HEAD ok / without Accept-Ranges / without Content-Length / 500 / reset, threshold below or above the size, a sixth of the cases with MaxFetchBytes at the resource's wire size -1 / +0 / +1 / half (mostly on the plain-GET path), whole-resource answers with a declared length or streamed without one; " +
 		"for every chunk the answer to its first and to its second (hedged) request: 206 correct, 500, 503, connection reset, body cut short of its Content-Length, honest short 206, over-long 206, 200 with the whole resource, never answering until cancelled; latencies 0-25 ms (+150 ms in the error-last shape). " +
 		"While the hang is a recorded known finding, general fault scripts are replaced by two shapes constructed to stay out of it (failing answers strictly last with hedging off; one failing/hanging first request rescued by eager hedging) and counted as excluded:hang-class. Non-trivial: parallel path, >=2 chunks and >=1 faulty answer.",
 	Gen: genC32,
 	Run: runC32,
-	Essential: []string{"path:parallel", "path:simple-get", "hedging:on", "hedging:off", "chunks:>=2", "result:resource", "result:error",
+	Essential: []string{"path:parallel", "path:simple-get", "simple-get-under-a-drawn-cap:undeclared-length", "max-fetch:size-1", "max-fetch:size+1", "hedging:on", "hedging:off", "chunks:>=2", "result:resource", "result:error",
 		"answer:500", "answer:reset", "answer:cut", "answer:short", "answer:long", "answer:whole200", "answer:hang", "differential:hedging"},
 	EssentialMin: 200,
 	Assumptions: []string{
